@@ -159,7 +159,7 @@ Section Monitor.
   (* replaying a sub-sequence from an emptier cluster succeeds and ends emptier *)
   Lemma replay_subl (ts : list task) d1 d2 : subl d1 d2 -> tasks_ok ts ->
     forall c1 c2 c2f, cle c1 c2 -> cok c1 -> cok c2 -> sw c2 -> replay L ts c2 d2 = Some c2f ->
-    exists c1f, replay L ts c1 d1 = Some c1f /\ cle c1f c2f.
+    exists c1f, replay L ts c1 d1 = Some c1f /\ cle c1f c2f /\ cok c1f /\ cok c2f.
   Proof.
     intros Hs Hts. induction Hs as [|d a b Hs IH|d a b Hs IH]; intros c1 c2 c2f Hle Hok1 Hok2 Hsw H; cbn [replay] in *.
     - inversion H; subst. exists c1. auto.
@@ -269,12 +269,13 @@ Section Monitor.
     { rewrite <- (firstn_skipn i ds) at 2. rewrite filter_app. apply subl_app_nil_r. }
     assert (subl (filter (placed_sel L offered sel) ds) ds) as S2 by apply subl_filter.
     (* the selected placements replay to some vx below cf ... *)
-    destruct (replay_subl offered _ _ S2 Hts v v cf (cle_refl L wle wle_refl v) Hokv Hokv Hsw Hrep) as (vx & Avx & _).
+    destruct (replay_subl offered _ _ S2 Hts v v cf (cle_refl L wle wle_refl v) Hokv Hokv Hsw Hrep) as (vx & Avx & _ & Hokvx & _).
     exists vx. split; [apply find_task_in; assumption|]. split; [exact Avx|].
     (* ... and above V *)
-    destruct (replay_subl offered _ _ S1 Hts v v vx (cle_refl L wle wle_refl v) Hokv Hokv Hsw Avx) as (V' & AV & HleV).
+    destruct (replay_subl offered _ _ S1 Hts v v vx (cle_refl L wle wle_refl v) Hokv Hokv Hsw Avx) as (V' & AV & HleV & HokV & _).
     rewrite <- Efil, replay_filter_place, RepV in AV. inversion AV; subst V'.
-    apply task_fits_false. eapply (task_unfit_later L wle sok can_antitone); [|exact HleV|apply task_fits_false; exact Funfit].
+    apply task_fits_false.
+    eapply (task_unfit_later L wle wok sok can_antitone); [|exact HokV|exact Hokvx|exact HleV|apply task_fits_false; exact Funfit].
     unfold GreedyP2.tasks_ok in Hts. rewrite Forall_forall in Hts. apply Hts. exact Hxin.
   Qed.
 End Monitor.
